@@ -434,118 +434,9 @@ func c18Gen(t *rapid.T) SeqCase {
 // c18Exclude names the known emulator defect a step would trigger ("" = none). The generator leaves such
 // steps out (and the runner skips them in replayed cases) so that the search can go on behind them.
 func c18Exclude(argv []string, db *model.DB) string {
-	if len(argv) < 2 {
-		return ""
-	}
-	name := upper(argv[0])
-	switch name {
-	case "BITCOUNT":
-		o := db.Keys[argv[1]]
-		// TEMP-EXCLUDE: D4 BITCOUNT on a key holding the empty string panics (slice bounds, redisBits.go fnBitCount) and kills the process
-		if o != nil && o.T == model.TString && o.Str == "" {
-			return "C18-D4-bitcount-empty-string-panic"
-		}
-		// TEMP-EXCLUDE: D8 BITCOUNT with start >= length (bytes, or bits with BIT) counts the last byte/bit instead of
-		// replying 0 (redisBits.go fnBitCount: "else if start >= length { start = length - 1 }")
-		if o != nil && o.T == model.TString && len(argv) >= 4 {
-			tot := int64(len(o.Str))
-			if len(argv) >= 5 && upper(argv[4]) == "BIT" {
-				tot *= 8
-			}
-			if n, err := strconv.ParseInt(argv[2], 10, 64); err == nil && n >= tot {
-				return "C18-D8-bitcount-start-beyond-end"
-			}
-		}
-	case "BITPOS":
-		o := db.Keys[argv[1]]
-		// TEMP-EXCLUDE: D11 BITPOS with a negative start on a key holding the empty string panics (index out of range in
-		// bitMath.go findBit: a negative startBit is clamped to 0 but then not compared with the end) and kills the process
-		if o != nil && o.T == model.TString && o.Str == "" && len(argv) >= 4 {
-			return "C18-D11-bitpos-empty-string-panic"
-		}
-		// TEMP-EXCLUDE: D10 BITPOS ... BIT whose end falls inside a byte searches that whole byte, so it reports positions beyond
-		// end (bitMath.go findBitInByte ignores stopBit; only the start-and-end-in-one-byte path of findBit masks the tail)
-		if o != nil && o.T == model.TString && len(argv) == 6 && upper(argv[5]) == "BIT" {
-			st, e1 := strconv.ParseInt(argv[3], 10, 64)
-			en, e2 := strconv.ParseInt(argv[4], 10, 64)
-			tot := int64(len(o.Str)) * 8
-			if e1 == nil && e2 == nil && tot > 0 {
-				if st < 0 {
-					st += tot
-				}
-				if en < 0 {
-					en += tot
-				}
-				if st < 0 {
-					st = 0
-				}
-				if en >= tot {
-					en = tot - 1
-				}
-				if en >= 0 && st <= en && en%8 != 7 && !(st/8 == en/8 && st%8 != 0) {
-					return "C18-D10-bitpos-bit-range-end-inside-byte"
-				}
-			}
-		}
-	case "SETBIT", "GETBIT":
-		// TEMP-EXCLUDE: D7 SETBIT with an offset >= 2^32 is not rejected: it allocates offset/8 bytes (panic "makeslice: len out
-		// of range" / out of memory kills the process for 2^40 and 2^63-1; 512 MB string for 2^32); GETBIT replies 0 instead of
-		// an error (redisBits.go fnSetBit / fnGetBit check only offset < 0)
-		if len(argv) >= 3 {
-			if n, err := strconv.ParseInt(argv[2], 10, 64); err == nil && n >= 1<<32 {
-				return "C18-D7-offset-2^32-not-rejected"
-			}
-		}
-	case "BITOP":
-		// TEMP-EXCLUDE: D15 BITOP <op> dest without any source key is executed (replies 0 and writes dest) instead of being
-		// rejected for its arity (redisBits.go fnBitOp: the first of the "key" arguments is dest, the rest may be empty)
-		if len(argv) == 3 {
-			return "C18-D15-bitop-without-source"
-		}
-		// (D5 "BITOP with an empty result stores an empty string instead of deleting dest" was excluded here until /repo
-		// commit 190ce9e fixed it; the exclusion is gone and the case is searched again)
-	case "BITFIELD", "BITFIELD_RO":
-		for _, s := range c18ParseSubs(argv) {
-			// TEMP-EXCLUDE: D1 BITFIELD type letter in upper case (I8/U8) is rejected (redisBits.go parseBitfieldEncodingType)
-			if s.rawTy != "" && (s.rawTy[0] == 'I' || s.rawTy[0] == 'U') {
-				return "C18-D1-uppercase-type"
-			}
-			// TEMP-EXCLUDE: D2 BITFIELD negative plain offset is accepted (or panics) instead of rejected (redisBits.go parseBitfieldOffset)
-			if n, err := strconv.ParseInt(s.off, 10, 64); err == nil && n < 0 {
-				return "C18-D2-negative-offset"
-			}
-		}
-		if e := db.Clone().Exec(argv, c18GenTime); e.Kind != model.EVal {
-			return "" // rejected as a whole (or don't-care): no arithmetic takes place
-		}
-		id := ""
-		c18Walk(argv, db, func(ev c18Ev) {
-			// TEMP-EXCLUDE: D6 signed SET under OVERFLOW SAT/FAIL tests "old value + new value" for overflow instead of
-			// the new value alone (dataStoreCommands.go bitfieldWrite: isSignedSumOverflow(n, op.value, bits) also for BF_SET)
-			if ev.kind == "SET" && ev.typ.signed && ev.ow != "WRAP" && ev.old != 0 {
-				id = "C18-D6-signed-set-overflow-test-uses-old-value"
-			}
-			// TEMP-EXCLUDE: D9 signed INCRBY under OVERFLOW SAT whose true sum leaves the int64 range saturates towards the
-			// sign of the wrapped 64-bit sum, i.e. to the wrong end (dataStoreCommands.go bitfieldWrite: newValue = n + newValue
-			// wraps, then saturateValue(signed, newValue, bits) looks at its sign)
-			if ev.kind == "INCRBY" && ev.typ.signed && ev.ow == "SAT" && !ev.target().IsInt64() {
-				id = "C18-D9-signed-incrby-sat-wrong-direction"
-			}
-			// TEMP-EXCLUDE: D12 i64 INCRBY under SAT/FAIL: the overflow test itself overflows when the stored value and the
-			// increment have opposite signs (or the increment is 0 and the value positive), reporting an overflow that does
-			// not exist (bitMath.go isSignedSumOverflow: "ceiling - a" / "bottom - a" wrap for bits == 64)
-			if ev.kind == "INCRBY" && ev.typ.signed && ev.typ.w == 64 && ev.ow != "WRAP" && ((ev.old < 0 && ev.val > 0) || (ev.old > 0 && ev.val <= 0)) {
-				id = "C18-D12-i64-incrby-overflow-test-wraps"
-			}
-			// TEMP-EXCLUDE: D13 unsigned INCRBY under SAT whose true sum exceeds 2^63-1: the int64 sum wraps negative, is taken
-			// for an underflow and saturates to 0 instead of the maximum (dataStoreCommands.go bitfieldWrite: "newValue < 0 ||",
-			// bitMath.go saturateValue)
-			if ev.kind == "INCRBY" && !ev.typ.signed && ev.ow == "SAT" && !ev.target().IsInt64() {
-				id = "C18-D13-unsigned-incrby-sat-int64-wrap"
-			}
-		})
-		return id
-	}
+	// every defect the generator once had to avoid (BITCOUNT on empty strings / start beyond the end,
+	// BITFIELD negative offsets and overflow arithmetic, SETBIT/GETBIT offsets >= 2^32, BITPOS range
+	// ends, BITOP without source) has been repaired in /repo: nothing is excluded any more.
 	return ""
 }
 
